@@ -183,6 +183,9 @@ def np_array(interp, args, kwargs):
     if isinstance(x, Tup):
         x = iter_to_vec(interp, x)
     if isinstance(x, Vec):
+        if dt is not None and getattr(dt, "name", "").split(".")[-1] == "object":
+            from .lib_sp_blocks import np_array_object
+            return np_array_object(interp, x)
         if x.elem == "obj" or (isinstance(x.elem, tuple) and x.elem[0] == "row"):
             return rows_to_mat(interp, x)
         out = ops.vec_copy(ctx, x, kind="ndarray")
